@@ -6,4 +6,5 @@ import Solvor.Flow.SSPLemmas
 import Solvor.Flow.AssignLemmas
 import Solvor.Flow.AssignBack
 import Solvor.Flow.PairLemmas
+import Solvor.Flow.SSPCert
 /-! Flow: helper lemmas (collected from the files of this directory). -/
